@@ -23,7 +23,8 @@ lexical-parse-integer/src/algorithm.rs and lexical-parse-float/src/parse.rs:
   been counted by `skip_zeros`; after a decimal point; after `e`/`E` and the optional sign) this means:
   **a digit component is the maximal run of radix digits and `_`** (`numRun`), the cursor being
   left after trailing separators.  Consequences visible in quil-rs and mirrored here: `0x_` and `0b__`
-  lex as `Integer 0`; `1._5` would be consumed by lexical as `1.5` (hence quil-rs's work-around).
+  lex as `Integer 0`; `1._5` would be consumed by lexical as `1.5` (hence quil-rs's work-arounds: since c330f06 lexical is
+  only shown the text up to the dot of a `._`, see `lexicalView`).
 * the value of an integer is Horner's rule over the digits with `_` removed; a value ≥ 2^64 is
   `Error::Overflow` (which quil-rs turns into a Failure);
 * the float grammar is  int-run? ( '.' frac-run )? ( [eE] [+-]? exp-run )?  with at least one mantissa
@@ -258,17 +259,20 @@ def floatFracPart (r1 : List Char) : Bool × List Char × List Char :=
   | '.' :: r2 => (true, (numRun 10 r2).1, (numRun 10 r2).2)
   | _ => (false, [], r1)
 
+/-- `parse_exponent_sign`: an optional `+` or `-` (the raw next byte, no separator skipping) -/
+def expSign (r4 : List Char) : Bool × List Char :=
+  match r4 with
+  | '+' :: r5 => (false, r5)
+  | '-' :: r5 => (true, r5)
+  | _ => (false, r4)
+
 /-- exponent component: `none` = `EmptyExponent` error; `some (none, r)` = no exponent marker;
 `some (some (negative, run), r)` = marker, optional sign, digit run with at least one digit -/
 def floatExpPart (r3 : List Char) : Option (Option (Bool × List Char) × List Char) :=
   match r3 with
   | e :: r4 =>
     if e = 'e' ∨ e = 'E' then
-      let sgn : Bool × List Char :=
-        match r4 with
-        | '+' :: r5 => (false, r5)
-        | '-' :: r5 => (true, r5)
-        | _ => (false, r4)
+      let sgn := expSign r4
       let run := numRun 10 sgn.2
       if runDigits run.1 = [] then none                   -- EmptyExponent
       else some (some (sgn.1, run.1), run.2)
@@ -297,18 +301,42 @@ def FloatParts.exponent (p : FloatParts) : Int :=
 /-- bits of the f64 the parts denote (nearest, ties to even); `none` = not finite -/
 def FloatParts.bits (p : FloatParts) : Option Nat := QV.DecF64.roundDec p.mantissa p.exponent
 
-/-- `lex_and_parse_number::<f64, …>` including the second work-around (lexer/mod.rs:308-315): when the
-consumed text contains `._` (the fraction run starts with a separator), the literal is re-parsed as the
-text up to and including the decimal point — an error if that text has no digit. -/
+/-- a character of the "candidate" text of `lex_and_parse_number::parse` (since /repo commit c330f06):
+`c.is_ascii_alphanumeric() || matches!(c, '_' | '.' | '+' | '-')` -/
+def isCandChar (c : Char) : Bool :=
+  isAsciiAlpha c || isAsciiDigit c || c == '_' || c == '.' || c == '+' || c == '-'
+
+/-- length of the text shown to lexical when it is truncated: scanning the candidate (the maximal prefix of
+candidate characters) from the left, the first `._` ends the visible text right after its dot.
+`none` = no `._` in the candidate: lexical sees the whole input. -/
+def viewLen? : List Char → Option Nat
+  | '.' :: '_' :: _ => some 1
+  | c :: cs => if isCandChar c then (viewLen? cs).map (· + 1) else none
+  | [] => none
+
+/-- the text `lex_and_parse_number::parse` hands to lexical (c330f06): "a digit separator may not lead the
+fraction, so a number ends at the dot of a `._`" -/
+def lexicalView (inp : List Char) : List Char :=
+  match viewLen? inp with
+  | some n => inp.take n
+  | none => inp
+
+/-- `lex_and_parse_number::<f64, …>`: lexical sees `lexicalView inp`; the consumed length is applied to the
+original input.  The older work-around (lexer/mod.rs: when the consumed text contains `._` the literal is
+re-parsed as the text up to and including the decimal point) is still in the code and kept here, although
+the view makes it unreachable.  (The integer parsers go through the same function; a digit run never
+contains `.`, so cutting the text right after a `.` cannot change what they consume — they are modelled
+on the untruncated input.) -/
 def lexAndParseFloat (inp : List Char) : Res FloatParts :=
-  match floatExtent inp with
+  let v := lexicalView inp
+  match floatExtent v with
   | none => .error
-  | some (p, rest) =>
+  | some (p, restV) =>
     match p.hasDot, p.fracRun with
     | true, '_' :: _ =>
       if runDigits p.intRun = [] then .error
       else .ok ⟨p.intRun, true, [], false, false, []⟩ (inp.drop (p.intRun.length + 1))
-    | _, _ => .ok p rest
+    | _, _ => .ok p (inp.drop (v.length - restV.length))
 
 /-- the `parse_float` closure of `lex_decimal_number`: `cut`, then the finiteness check. -/
 def parseFloatTok (inp : List Char) : Res Token :=
